@@ -20,7 +20,7 @@ theorem fromBatchData_sound (hT : legalThreshold T = true) {cfg : MCfg} (hc : Cf
       m.toList.Perm (List.zipWith (fun p c => (p.1, storedValue cfg p.1 p.2 c)) kvs cs)) ∧
     KeysDistinct m.toList := by
   obtain ⟨_, _, _, _, _, st, cf, hfill, hto⟩ := fromBatchData_ok_facts cfg ty seed kvs c m c' h
-  have hinit := mfill_init (D := D) hT cfg (c.alloc cfg.addr).1
+  have hinit := mfill_init (D := D) hT cfg (c.alloc cfg.addr).1 rfl
   have hok := (mfill_ok hT hc kvs hkv [] _ _ hinit).1 st cf hfill
   simp only [List.nil_append] at hok
   have S := (MElems.opsSpec D hT hc r).toOpsStruct
@@ -67,11 +67,12 @@ theorem fromBatchData_rejects_duplicates (hT : legalThreshold T = true) {cfg : M
     duplicate keys (no spurious rejection). -/
 theorem fillLoop_complete (hT : legalThreshold T = true) {cfg : MCfg} (hc : CfgFor cfg T (r + 1))
     (kvs : List (MKey × Elem)) (hkv : ∀ p ∈ kvs, KeyOk T (r + 1) D p.1 ∧ ValueOkM p.2)
-    (hs : (kvs.map (fun p => p.1.dig 0)).Pairwise (· ≤ ·)) (hd : KeysDistinct kvs) (id : SlabID) (c : Ctx) :
+    (hs : (kvs.map (fun p => p.1.dig 0)).Pairwise (· ≤ ·)) (hd : KeysDistinct kvs) (id : SlabID)
+    (hid : id.addr = cfg.addr) (c : Ctx) :
     ∃ st c', fillLoop cfg kvs
         { id := id, elements := emptyElems r, slabs := [], count := 0, prevHkey := 0 } c = .ok (st, c') ∧
       MFillOk T r D cfg st kvs := by
-  have hinit := mfill_init (D := D) hT cfg id
+  have hinit := mfill_init (D := D) hT cfg id hid
   obtain ⟨hA, hB⟩ := mfill_ok hT hc kvs hkv [] _ c hinit
   obtain ⟨st, c', heq⟩ := hB hs (by intro p _; simp) (by simpa using hd)
   exact ⟨st, c', heq, by simpa using hA st c' heq⟩
@@ -125,7 +126,7 @@ theorem fromBatchData_inv_partial (hT : legalThreshold T = true) {cfg : MCfg} (h
     rw [hf] at h
     simp only at h
     have hsl := hone st cf hf
-    have hinit := mfill_init (D := D) hT cfg (c.alloc cfg.addr).1
+    have hinit := mfill_init (D := D) hT cfg (c.alloc cfg.addr).1 rfl
     have hok := (mfill_ok hT hc kvs hkv [] _ _ hinit).1 st cf hf
     simp only [List.nil_append] at hok
     rw [hsl] at h
